@@ -196,21 +196,28 @@ def run(ctx):
     # ---------------------------------------------------------------- 5. limit guards
     r5 = rep.rule('C20.5-limit-guards', 'R-SIBLING', 'netstring length parsers guard 10*len with the same bound at all sites; SMTP reply text is capped')
     sites = []
+    from qv.lib import consistent_values
+    UNI = [0, 1, 1000, 199999999, 200000000, 200000001, 400000000, 429496729, 429496730, 2 ** 31, 2 ** 32 - 1]
     for unit, fname in (('qmail-qmtpd.c', 'getlen'), ('qmail-qmtpd.c', 'main'), ('qmail-qmqpd.c', 'getlen')):
         fn = db.fn(unit, fname)
         for x in fn.all_x():
-            if x.k == 'bin' and x.op == '*' and 10 in (x.args[0].const, x.args[1].const) and 'len' in x.src():
-                bound = None
-                for c, t in fn.guards(x) or []:
-                    s = c.strip()
-                    if s.k == 'bin' and s.op == '>' and 'len' in s.args[0].src() and s.args[1].const and t is False:
-                        bound = s.args[1].const
-                sites.append((unit, fname, bound))
-    r5.check(len(sites) >= 3 and len({b for _, _, b in sites}) == 1 and sites[0][2] is not None and sites[0][2] * 10 + 9 < 2 ** 32, 'netstring-length-guard-agrees', 'qmail-qmtpd.c/qmail-qmqpd.c', 'sites %s' % sites)
+            if x.k == 'bin' and x.op == '*' and 10 in (x.args[0].const, x.args[1].const):
+                var = x.args[0] if x.args[1].const == 10 else x.args[1]
+                vk = var.strip().path() or var.strip().src()
+                cv = consistent_values(fn, x, UNI, key=lambda v: v.strip().path() or v.strip().src())
+                allowed = cv.get(vk)
+                sites.append((unit, fname, max(allowed) if allowed else None if allowed is None else -1))
+    r5.check(len(sites) >= 3 and all(b_ is not None and b_ * 10 + 9 < 2 ** 32 for _, _, b_ in sites) and len({b_ for _, _, b_ in sites}) == 1, 'netstring-length-guard-agrees', 'qmail-qmtpd.c/qmail-qmqpd.c',
+             'largest explored length that reaches len*10 (function, value): %s; the multiplication must stay below 2^32 and the three parsers must agree' % sites)
     hs = db.unit('qmail-remote.c').macro_int('HUGESMTPTEXT')
     g = db.fn('qmail-remote.c', 'get')
-    cap = any(any(c.strip().k == 'bin' and c.strip().op == '<' and c.strip().args[1].const == hs and t is True for c, t in g.guards(a) or []) for a in g.calls('stralloc_append'))
-    r5.check(hs is not None and cap, 'smtp-reply-text-capped', 'qmail-remote.c:get', '')
+    apps = g.calls('stralloc_append')
+    cap = bool(apps) and hs is not None
+    for a_ in apps:
+        cv = consistent_values(g, a_, [0, 1, (hs or 1) - 1, hs or 1, (hs or 1) + 1, 10 * (hs or 1), 2 ** 31], key=lambda v: v.strip().path() or v.strip().src())
+        al = cv.get('G:smtptext.len')
+        cap = cap and al is not None and max(al or [0]) < hs
+    r5.check(cap, 'smtp-reply-text-capped', 'qmail-remote.c:get', 'the reply text kept for the report must stop growing at HUGESMTPTEXT=%s' % hs)
     r5.expect_min(2)
     rep.assume('whole-program memory safety is NOT decided; only the listed obligations are',
                'reserve contract: a successful X_readyplus(obj,k) guarantees capacity >= len+k and nothing more')
